@@ -55,6 +55,52 @@ def record_axioms(ctx, w, config):
     return n
 
 
+def conversion_accuracy(ctx, config, w):
+    """Decimal back-end: for every reference-unit type and ordered unit pair the
+    term equiv_amount evaluates must scale the amount by the exact scale ratio
+    up to the rounding of an 18-digit decimal: relative error of the effective
+    coefficient <= 1e-18, accumulated absolute rounding <= 1e-18."""
+    from . import accuracy as A
+    U = w.U
+    to = S.P(1, "unit")
+    outs, b, _ = G.summarize(U, G.HRU + "equiv_amount", G.INL_CONV)
+    uq = S.unit(self_)
+    sa, sb = T.canon(S.scale(uq)), T.canon(S.scale(to))
+    amounts = {T.canon(S.amount(self_))}
+    n = 0
+    for q in w.qtypes:
+        if q.kind != "ref" or "scale" not in q.tables:
+            continue
+        rows = [(v, q.tables["scale"][v][1]) for v in q.variants_const]
+        for (u, su) in rows:
+            for (v, sv) in rows:
+                if u == v:
+                    continue
+                inst = "%s/%s/%s->%s" % (config, q.path, u, v)
+                try:
+                    k, t = A.select(outs, {sa: su, sb: sv}, {T.canon(uq): u, T.canon(to): v})
+                    if k != "val":
+                        raise A.Unsupported("conversion diverges")
+                    r = A.analyse(t, {sa: su, sb: sv}, amounts)
+                    if r[0] != "l":
+                        raise A.Unsupported("result does not depend on the amount")
+                except A.Unsupported as x:
+                    ctx.fail("conversion-accuracy", inst, "cannot analyse the conversion term: %s" % x, b["span"])
+                    continue
+                n += 1
+                rel = abs(r[1] - r[2]) / abs(r[2])
+                ctx.ob("conversion-accuracy", inst, rel <= A.COEF_TOL and r[3] <= A.ABS_TOL,
+                       "converting %s to %s (%s) multiplies the amount by %s where the exact scale ratio is %s: relative error %.3g "
+                       "(allowed %.1g; absolute rounding %.3g) — far beyond the rounding of the amount type; term %s"
+                       % (u, v, q.path, A_show(r[1]), A_show(r[2]), float(rel), float(A.COEF_TOL), float(r[3]), T.show(t)),
+                       b["span"], nontrivial=False)
+    return n
+
+
+def A_show(x):
+    return "%.20g" % float(x)
+
+
 def run_config(ctx, config):
     w = ws.load(config)
     U = w.U
@@ -79,6 +125,9 @@ def run_config(ctx, config):
                  else ("val", S.new(S.R(("/", ("*", a, S.scale(uq)), S.scale(to2))), to2)))
     G.check_spec(ctx, "convert-stores-equiv-amount", config, U, G.HRU + "convert", set(), [],
                  lambda val: ("val", S.new(S.app("HasRefUnit::equiv_amount", self_, to2), to2)))
+    if config.startswith("dec"):
+        n = conversion_accuracy(ctx, config, w)
+        ctx.floor("%s: ordered unit pairs with analysed conversion accuracy" % config, n, 600)
     # 4. record axioms
     G.unit_identity(ctx, config, w)
     n = record_axioms(ctx, w, config)
@@ -113,7 +162,8 @@ def run(ctx):
                      "truth table of its guards), plus record axioms per impl Quantity and override checks per impl")
     ctx.trusted = ["rustc THIR construction and trait resolution", "IEEE-754 / fpdec arithmetic: each arithmetic node is one correctly rounded operation",
                    "derived PartialEq of field-less unit enums is discriminant equality"]
-    ctx.assumptions = ["magnitude of the rounding error is not decided: converted path = 2 operations (one division, one multiplication), same-unit path = 0"]
+    ctx.assumptions = ["f64: magnitude of the rounding error is not decided beyond the operation count (converted path = 2 operations, same-unit path = 0); "
+                       "decimal: forward error analysis per ordered unit pair (effective coefficient vs exact ratio, tolerance 1e-18 relative)"]
     ctx.explanation = ("Gated value-flow summaries of LinearScaledUnit::ratio, HasRefUnit::equiv_amount and ::convert (generic bodies, so all types, "
                        "unit pairs and amounts at once) are compared with the specified rational function / exact tree; record axioms of every generated "
                        "new/amount/unit by composition; no impl overrides the analysed defaults; every scale table is total and positive.")
